@@ -118,7 +118,7 @@ def run(name, props, extra):
             for l in out.splitlines():
                 if l.startswith("VIOLATION") and "replay=" in l:
                     rp = l.split("replay=")[1].strip()
-                    if os.path.exists(rp):
+                    if os.path.exists(rp) and os.path.basename(rp) not in open(os.path.join(VERIF, "known_findings.json")).read():
                         os.remove(rp)
     finally:
         sh(["git", "-C", "/repo", "checkout", "--", "."])
